@@ -62,11 +62,13 @@ def main():
             known.setdefault(r, f[:3])
     # violations reported on the clean tree as known findings also count as 'seen firing'
     kf = json.load(open(os.path.join(VERIF, "known_findings.json")))
-    for k in kf.get("findings", {}):
-        m = RID.search(k if isinstance(k, str) else "")
+    for k in kf.get("findings", []):
+        m = RID.search(k.get("key", "") if isinstance(k, dict) else str(k))
         if m:
             fired.setdefault(m.group(1), []).append("known-finding")
-    never = sorted(r for r in known if r not in fired)
+    # ids that only carry an instance count (require_count) are not rules
+    count_only = set(r for r in known if r.split(".", 1)[1] in ("frame-agreement", "exit-sites"))
+    never = sorted(r for r in known if r not in fired and r not in count_only)
     print("%d rule ids in the evidence, %d seen firing, %d never seen firing:" % (len(known), len([r for r in known if r in fired]), len(never)))
     for r in never:
         print("   ", r)
